@@ -5,6 +5,9 @@ import BlockCiphers.Proofs.AesFs64Aes128
 import BlockCiphers.Proofs.AesFs64Aes192
 import BlockCiphers.Proofs.AesFs64Aes256
 import BlockCiphers.Proofs.AesFs32Lanes
+import BlockCiphers.Proofs.AesArmv8
+import BlockCiphers.Proofs.AesArmv8Par
+import BlockCiphers.Proofs.KuznyechikNeonModels
 /-
 C04 — multi-block and buffer-to-buffer calls equal per-block calls
 GENERATED statement file (tools/gen_thm.py): every theorem below restates, verbatim, a theorem of a Proofs/ module
@@ -184,3 +187,70 @@ open BC.Spec.Aes
 theorem C04.aes128_encrypt_lane0 (rk : Nat → St) (b : Batch) : (aes128_encrypt rk b).b0 = single (aes128_encrypt rk) b.b0 :=
   _root_.BC.AesFs64.aes128_encrypt_lane0 rk b
 end BC.AesFs64
+
+namespace BC.AesArmv8
+open BC BC.X86 BC.Arm
+/-- `encrypt_par` = lane-wise `encrypt` whenever the key array has one of the three legal sizes -/
+theorem C04.armv8_encrypt_par_eq_map (keys bs : List (BitVec 128)) (h : keys.length = 11 ∨ keys.length = 13 ∨ keys.length = 15) :
+    encrypt_par keys bs = bs.map (encrypt keys) :=
+  _root_.BC.AesArmv8.encrypt_par_eq_map keys bs h
+end BC.AesArmv8
+
+namespace BC.AesArmv8
+open BC BC.X86 BC.Arm
+/-- `decrypt_par` = lane-wise `decrypt` whenever the key array has one of the three legal sizes -/
+theorem C04.armv8_decrypt_par_eq_map (keys bs : List (BitVec 128)) (h : keys.length = 11 ∨ keys.length = 13 ∨ keys.length = 15) :
+    decrypt_par keys bs = bs.map (decrypt keys) :=
+  _root_.BC.AesArmv8.decrypt_par_eq_map keys bs h
+end BC.AesArmv8
+
+namespace BC.AesArmv8
+open BC BC.X86 BC.Arm BC.Spec.Aes BC.AesNi
+theorem C04.armv8_encrypt_par128 (key : BitVec 128) (bs : List (BitVec 128)) :
+    encrypt_par (Enc.new128 key).keys bs = bs.map (encrypt128 key) :=
+  _root_.BC.AesArmv8.encrypt_par128 key bs
+end BC.AesArmv8
+
+namespace BC.AesArmv8
+open BC BC.X86 BC.Arm BC.Spec.Aes BC.AesNi
+theorem C04.armv8_decrypt_par128 (key : BitVec 128) (bs : List (BitVec 128)) :
+    decrypt_par (Dec.new128 key).keys bs = bs.map (decrypt128 key) :=
+  _root_.BC.AesArmv8.decrypt_par128 key bs
+end BC.AesArmv8
+
+namespace BC.AesArmv8
+open BC BC.X86 BC.Arm BC.Spec.Aes BC.AesNi
+theorem C04.armv8_encrypt_par192 (key : BitVec 192) (bs : List (BitVec 128)) :
+    encrypt_par (Enc.new192 key).keys bs = bs.map (encrypt192 key) :=
+  _root_.BC.AesArmv8.encrypt_par192 key bs
+end BC.AesArmv8
+
+namespace BC.AesArmv8
+open BC BC.X86 BC.Arm BC.Spec.Aes BC.AesNi
+theorem C04.armv8_decrypt_par192 (key : BitVec 192) (bs : List (BitVec 128)) :
+    decrypt_par (Dec.new192 key).keys bs = bs.map (decrypt192 key) :=
+  _root_.BC.AesArmv8.decrypt_par192 key bs
+end BC.AesArmv8
+
+namespace BC.AesArmv8
+open BC BC.X86 BC.Arm BC.Spec.Aes BC.AesNi
+theorem C04.armv8_encrypt_par256 (key : BitVec 256) (bs : List (BitVec 128)) :
+    encrypt_par (Enc.new256 key).keys bs = bs.map (encrypt256 key) :=
+  _root_.BC.AesArmv8.encrypt_par256 key bs
+end BC.AesArmv8
+
+namespace BC.AesArmv8
+open BC BC.X86 BC.Arm BC.Spec.Aes BC.AesNi
+theorem C04.armv8_decrypt_par256 (key : BitVec 256) (bs : List (BitVec 128)) :
+    decrypt_par (Dec.new256 key).keys bs = bs.map (decrypt256 key) :=
+  _root_.BC.AesArmv8.decrypt_par256 key bs
+end BC.AesArmv8
+
+namespace BC.Models.KuznyechikNeon
+open BC BC.Kuznyechik
+/-- C04 for the `neonblocks` line: the block loop over the parallel functions is the block-wise map -/
+theorem C04.neon_blocks_eq_map (k : RoundKeys) (bs : List (BitVec 128)) :
+    procBlocks Neon.parEnc (Neon.encrypt_par_blocks k) (Neon.encrypt_block k) bs = bs.map (Neon.encrypt_block k) ∧
+    procBlocks Neon.parDec (Neon.decrypt_par_blocks k) (Neon.decrypt_block k) bs = bs.map (Neon.decrypt_block k) :=
+  _root_.BC.Models.KuznyechikNeon.blocks_eq_map k bs
+end BC.Models.KuznyechikNeon
